@@ -58,10 +58,16 @@ def sig(fl):
         kind = "panic in=%s" % e.get("in")
     elif op == "alloc":
         kind = _alloc_kind(e, prev)
-        if kind is None and any(d.get("used", {}).get(r, 0) > d.get("total", {}).get(r, 0)
-                                for d in e.get("obs", {}).get("dev", []) for r in d.get("used", {})):
-            k2 = _ledger_kind(e.get("obs", {}))
-            kind = "over-commit" if k2.startswith("ledgers-differ") else k2
+        if kind is None and _ledger_kind(e.get("obs", {})).startswith("ledgers-differ"):
+            # the grant itself satisfies (A) and the ledgers are consistent: which granted device ended up over-committed?
+            granted = set((t, g["m"]) for t, gs in e.get("result", {}).get("alloc", {}).items() for g in gs)
+            asked = set(r for rq in e.get("reqs", {}).values() for r in rq.get("req", {}))
+            over = set(r for d in e.get("obs", {}).get("dev", []) if (d["t"], d["m"]) in granted
+                       for r in d.get("used", {}) if d["used"][r] > d.get("total", {}).get(r, 0))
+            if over and not (over & asked):
+                kind = "over-commit-of-derived-amount:" + ",".join(sorted(over))
+            elif over:
+                kind = "over-commit:" + ",".join(sorted(over))
     if kind is None:
         kind = _ledger_kind(e.get("obs", {}))
     return "op=%s %s" % (op, kind)
@@ -86,10 +92,13 @@ CONF = {
             "with the from-scratch operators of Device.tla; distinct by content hash, non-trivial = at least one checked event",
     "assumptions": [
         "one node; device types gpu / rdma / fpga with the resources the koordlet reports for them (gpu-core, gpu-memory-ratio, gpu-memory; rdma; fpga); "
-        "the memory size of a GPU minor is fixed within a history (totals change by health / removal / proportional shrink)",
-        "requests are expressed as pod resource requests the plugin accepts (percent of gpu-core / gpu-memory-ratio, gpu.shared for several "
-        "fractional GPUs; rdma / fpga percent, several whole devices); requests in gpu-memory bytes, device hints (VF, exclusive policy, "
+        "the memory size of a GPU minor is fixed within a history and a healthy GPU reports 100 percent (GPU totals change by health / removal, "
+        "rdma / fpga totals also shrink to 50)",
+        "requests are expressed as pod resource requests the plugin accepts (percent of gpu-core / gpu-memory-ratio, gpu-memory in bytes, "
+        "gpu.shared for several fractional GPUs; rdma / fpga percent, several whole devices); device hints (VF, exclusive policy, "
         "apply-for-all), joint allocation, GPU partition tables, reservations / preemption restore states are not generated",
+        "GPU memory asked for in one unit is charged in both (fillGPUTotalMem): (A) is checked on the amounts asked for, (U) on everything "
+        "charged, (K) counts a device as fitting only if the derived amount (exact floor) is free too",
         "allocate + commit is one step (the property's quantifier): no inventory refresh between Allocate and the ledger update of Reserve",
         "informer semantics: the old object of an update / delete is the object delivered last; duplicate adds re-deliver the current object, "
         "duplicate deletes re-deliver the object that went away; allocation annotations delivered for assigned pods are arbitrary "
